@@ -240,6 +240,86 @@ def fuzz_state(name, app, templates, rng, n, stats, out_probs, known_hits):
         before = after
 
 
+def learn_schema(app, tmpl, version):
+    """which schema object the handler validates this body with: learnt from the code by wrapping util.extract_json"""
+    from placement import util as putil
+    seen = []
+    orig = putil.extract_json
+
+    def spy(body, schema):
+        seen.append(schema)
+        return orig(body, schema)
+    putil.extract_json = spy
+    try:
+        m = fuzz.mutate(random.Random(0), ('GET', '/', None, None))
+        m.update({'method': tmpl[0], 'path': tmpl[1], 'query': [], 'body': json.dumps(tmpl[3]).encode(), 'ctype': 'application/json',
+                  'what': []})
+        m['headers']['openstack-api-version'] = 'placement 1.%d' % version
+        fuzz.issue(app, m)
+    finally:
+        putil.extract_json = orig
+    return seen[0] if seen else None
+
+
+BOUNDARY_VERSIONS = (39, 37, 33, 27, 19, 14, 12, 8, 1)
+
+
+def boundary_stream(tier, stats, out_probs, known_hits):
+    """every valid write template x the versions on both sides of its schema changes: the schema the handler uses is learnt
+    from the running code, then EVERY single-node boundary variant of the valid body (harness.schemas.boundary_docs: each
+    keyword of the schema at each position) is sent to the service in a freshly populated state"""
+    from harness import schemas as schemas_mod
+    n = 0
+    cap = 60 if tier == 'quick' else 100000
+    templates = [t for t in fuzz.valid_requests() if t[3] is not None]
+    app = impl.App()
+    surface.setup_state(app)
+    learnt = {(i, v): learn_schema(app, t, v) for i, t in enumerate(templates) for v in BOUNDARY_VERSIONS}
+    app.close()
+    for i, tmpl in enumerate(templates):
+        seen_schema = set()
+        for v in BOUNDARY_VERSIONS:
+            sch = learnt[(i, v)]
+            if sch is None or id(sch) in seen_schema:
+                continue
+            seen_schema.add(id(sch))
+            docs = schemas_mod.boundary_docs(tmpl[3], sch)
+            if len(docs) > cap:
+                docs = random.Random(len(docs)).sample(docs, cap)
+            app = impl.App()
+            surface.setup_state(app)
+            before = core(app.raw_dump())
+            for doc in docs:
+                try:
+                    raw = json.dumps(doc).encode()
+                except (TypeError, ValueError):
+                    continue
+                m = fuzz.mutate(random.Random(0), ('GET', '/', None, None))
+                m.update({'method': tmpl[0], 'path': tmpl[1], 'query': [], 'body': raw, 'ctype': 'application/json',
+                          'what': ['boundary variant of the valid body']})
+                m['headers']['openstack-api-version'] = 'placement 1.%d' % v
+                del LAST_EXC[:]
+                resp, err = fuzz.issue(app, m)
+                after = core(app.raw_dump())
+                st = resp.status_int if resp is not None else -1
+                n += 1
+                stats['evaluations'] += 1
+                stats['status'][st] += 1
+                stats['route'][tmpl[0] + ' ' + tmpl[1].split('/')[1]] += 1
+                stats['mutation']['boundary'] += 1
+                stats['distinct'].add(('boundary', m['method'], m['path'], v, raw))
+                for p in judge(m, resp, err, before, after):
+                    if p[0] == 'server-error':
+                        f = known_match(p[2], p[3])
+                        if f is not None:
+                            known_hits.append((f, 'plain', jsonable(m)))
+                            continue
+                    out_probs.append({'state': 'plain', 'index': -2, 'request': jsonable(m), 'kind': p[0], 'text': p[1], 'status': st})
+                before = after
+            app.close()
+    return n
+
+
 def history_state(app, rng, n_ops):
     dump = ops.canon_dump(app.raw_dump())
     for _ in range(n_ops):
@@ -313,6 +393,7 @@ def run(pid, tier, out):
         fuzz_state('history', app, history_templates(app) + fuzz.valid_requests()[:4], rng, n // (2 * rounds), stats, probs,
                    known_hits)
         app.close()
+    n_boundary = boundary_stream(tier, stats, probs, known_hits)
     # the known trigger itself, so that the finding is looked at on every run
     app = impl.App()
     exotic_state(app)
@@ -424,7 +505,7 @@ def run(pid, tier, out):
            'status_histogram': {str(k): v for k, v in sorted(stats['status'].items())},
            'route_histogram': dict(stats['route']), 'mutation_histogram': dict(stats['mutation']),
            'known_finding_hits': len(known_hits), 'problems': len(probs),
-           'parser_cases': pn_cases, 'parser_disagreements': len(pdis), 'parser_cases_by_kind': pstats.get('by_kind'),
+           'boundary_variants_over_http': n_boundary, 'parser_cases': pn_cases, 'parser_disagreements': len(pdis), 'parser_cases_by_kind': pstats.get('by_kind'),
            'parser_builtin_table_discrepancies': pstats.get('table_discrepancies'),
            'schema_documents': sn_cases, 'schema_disagreements': len(sdis), 'schema_stats': sstats}
     common.write_evidence('C15', tier, 'proof', cov, t.s(), len(out.violations),
